@@ -7,8 +7,12 @@
     result = ERR:<name> | EMPTY | sid:id,id,...|sid:id,id,...     (one entry per sentence; the ids of its nodes in
              preorder, children by leftmost token - the canonical order of `encTree`)
 
-  `src_i` / `opts_i` are what `read_export` … take; `drawn_i` is the number of ids a FAILING reader has drawn (an input
-  of the model, `CallX.read`).  The counter after the history is read off a probe call appended to the history (a reader
+  `src_i` / `opts_i` are what `read_export` … take; `drawn_i` is the number of ids drawn by nodes the call created and did
+  NOT deliver (an input of the model, `CallX.read`): all ids of a FAILING reader; for a reader that succeeds the ids of
+  the sentences it skipped (TIGER-XML: several roots, a cycle, two incoming edges) = ids drawn by the call minus nodes
+  delivered.  The model adds them after the delivered sentences of the call (`CallX.run`): the counter after every call
+  is the implementation's; the blocks of delivered sentences BEHIND a skipped one inside the same call are lower than
+  the implementation's by the skipped ids (harness/idcases.py compares those calls by block sizes + counter).  The counter after the history is read off a probe call appended to the history (a reader
   that delivers one single-node sentence): its node draws exactly `nextId`.
 -/
 import Driver.OpsProc
